@@ -34,6 +34,13 @@ import (
 
 var r *vk.Run
 
+// debugging aids (never used by vcheck): C11_DUMP=<file> writes one "family index class" line per case,
+// C11_FAMS=<substring> restricts the run to matching families.
+var (
+	dumpF  *os.File
+	dumpMu sync.Mutex
+)
+
 type chunk struct {
 	fam      family
 	from, to int64
@@ -269,6 +276,11 @@ func (s *sched) runChunk(w *worker, c chunk) (alive bool) {
 					local[cl]++
 				}
 				done++
+				if dumpF != nil {
+					dumpMu.Lock()
+					fmt.Fprintf(dumpF, "%s %d %d\n", c.fam.Name(), cur, cl)
+					dumpMu.Unlock()
+				}
 				r.Eval()
 				r.Distinct(c.fam.Name() + "#" + strconv.FormatInt(cur, 10))
 				cur = -1
@@ -485,8 +497,14 @@ func main() {
 	}
 	fams := append([]family(nil), g.fams...)
 	sort.SliceStable(fams, func(i, j int) bool { return order(fams[i].Name()) < order(fams[j].Name()) })
+	if d := os.Getenv("C11_DUMP"); d != "" {
+		dumpF, _ = os.Create(d)
+	}
 	var total int64
 	for _, f := range fams {
+		if sub := os.Getenv("C11_FAMS"); sub != "" && !strings.Contains(sub, f.Name()) {
+			continue
+		}
 		step := int64(400)
 		switch f.Name() {
 		case "ladders":
